@@ -267,6 +267,39 @@ def translate():
         for fn in ws_cls.body:
             if isinstance(fn, ast.FunctionDef):
                 ws_method_writes[fn.name] = attr_writes(ast.ClassDef(name='x', bases=[], keywords=[], body=[fn], decorator_list=[]))[fn.name]
+    # in-place mutation of objects that SURVIVE connect() (C17 / C10): calls of mutating methods (and subscript stores / deletes)
+    # whose receiver is an attribute of the WebSocket itself (not of `self.state`), or a local name bound directly - without a
+    # copy - from such an attribute, in any method other than __init__.  `headers = self._headers; headers.extend(..)` in
+    # build_request is the example: every reconnect would repeat the headers of all earlier requests.
+    MUTATORS = {'append', 'extend', 'insert', 'pop', 'remove', 'clear', 'update', 'setdefault', 'add', 'discard', 'sort', 'reverse',
+                'popitem', '__setitem__', '__delitem__', 'appendleft', 'extendleft'}
+    ws_inplace = []
+    def _self_attr(x):
+        return (isinstance(x, ast.Attribute) and isinstance(x.value, ast.Name) and x.value.id == 'self' and x.attr != 'state')
+    for fn in (ws_cls.body if ws_cls else []):
+        if not isinstance(fn, ast.FunctionDef) or fn.name == '__init__':
+            continue
+        alias = {}
+        for n in ast.walk(fn):
+            if isinstance(n, ast.Assign) and len(n.targets) == 1 and isinstance(n.targets[0], ast.Name) and _self_attr(n.value):
+                alias[n.targets[0].id] = 'self.' + n.value.attr
+        def _recv(x):
+            if _self_attr(x):
+                return 'self.' + x.attr
+            if isinstance(x, ast.Name) and x.id in alias:
+                return alias[x.id]
+            return None
+        for n in ast.walk(fn):
+            r = None
+            if isinstance(n, ast.Call) and isinstance(n.func, ast.Attribute) and n.func.attr in MUTATORS:
+                r = _recv(n.func.value)
+            elif isinstance(n, ast.Subscript) and isinstance(n.ctx, (ast.Store, ast.Del)):
+                r = _recv(n.value)
+            elif isinstance(n, ast.AugAssign):
+                r = _recv(n.target) if isinstance(n.target, ast.Name) else None
+            if r:
+                ws_inplace.append((fn.name, r))
+    ws_inplace = sorted(set(ws_inplace))
     connect_fn = find_func(ws_cls, 'connect') if ws_cls else None
     connect_resets_first = bool(connect_fn and first_stmt_is_call(connect_fn, 'reset'))
     reset_fn = None
@@ -720,6 +753,9 @@ def frameParserInitCallsSuper : Bool := {'true' if fp_init_calls_super else 'fal
 /-- for every method of `compression.Deflate`: the attributes of `self` it assigns, directly or through `self.<method>()` calls -/
 def deflateTouches : List (String × List String) :=
   [{', '.join('(%s, [%s])' % (lean_str(m), ', '.join(lean_str(a) for a in attrs)) for m, attrs in deflate_touches)}]
+/-- (method, receiver): in-place mutations (append / extend / update / subscript store ...) of attributes of the WebSocket object itself
+    - objects that survive `connect()` - or of local names bound to them without a copy, in methods other than `__init__` -/
+def wsInPlaceMutations : List (String × String) := [{', '.join('(%s, %s)' % (lean_str(a), lean_str(b)) for a, b in ws_inplace)}]
 /-- `Deflate.from_options` returns an object constructed by this very call and touches nothing that outlives the call -/
 def fromOptionsFresh : Bool := {'true' if from_options_fresh else 'false'}
 /-- methods of `WebsocketSession` that call `<sock>.settimeout(None)` (back to blocking mode) -/
